@@ -172,8 +172,12 @@ func VHString() {
 
 // VHHistory: D operations in a row from the constructor (see VMapHistory).
 func VHHistory() {
-	s := NewWith[int](vl.Cmp)
-	sets.VSetHistory(s, false, "TreeSet", func() {
+	init := vl.InitArgs() // with initial values only under the natural order (the set model deduplicates with ==)
+	s := NewWith[int](vl.Cmp, init...)
+	if v.CfgOr("ctor", 0) == 1 { // the default-comparator constructor (cmp.Compare); only meaningful with cmp=0
+		s = New[int](init...)
+	}
+	sets.VSetHistoryFrom(s, vl.DedupFirst(init), false, "TreeSet", func() {
 		rbt.VInv(s.tree)
 		vals := s.Values()
 		for i := 1; i < len(vals); i++ {
